@@ -74,7 +74,7 @@ contract("monkeytype.db.sqlite:SQLiteStore.filter", props=["C09", "C14"], theori
          note="assumed: SQLite returns one 5-tuple per row of a 5-column SELECT (make_query post:columns proves the column list)",
          raises={"sqlite3.Error": None})
 
-contract("monkeytype.db.sqlite:create_call_trace_table", props=["C09"], theories=TH, pure=False, effects="sql",
+contract("monkeytype.db.sqlite:create_call_trace_table", props=["C09"], theories=TH, pure=False, effects="sql", hide=["post:idempotent-ddl"],
          params={"conn": "Conn", "table": "strp"}, result="none",
          ensures={"post:one-transaction": "len(effects()) == len(old(effects())) + 4 and nth(effects(), len(old(effects()))) is tup('begin', conn) and last_effect_() is tup('commit', conn)",
                   "post:idempotent-ddl": "sql_is_ddl(unboxs(nth(nth(effects(), len(old(effects())) + 1), 2))) and sql_is_ddl(unboxs(nth(nth(effects(), len(old(effects())) + 2), 2)))"},
